@@ -161,4 +161,10 @@ instance (names : List (List Char)) (acc : Vars) : Decidable (NoClash names acc)
 def envNames (pre : List Char) (environ : Environ) (p : List Key) : Bool :=
   (lookupEnv (pre ++ envVarName p) environ).isSome
 
+/-- what `_path_set` computes for the setting at `p` from the string `s`: `_cast(_path_get(p), s)` -/
+def castAt (c : KVs) (p : List Key) (s : List Char) : Except CErr Leaf :=
+  match getLeaf p c with
+  | none => .error (.key "_path_get")
+  | some old => castLeaf old s
+
 end Inv
